@@ -4,3 +4,5 @@ pub mod c03;
 pub mod repl_crash;
 pub mod c04;
 pub mod c09;
+pub mod c07;
+pub mod c10;
